@@ -48,11 +48,22 @@ def run_shards(prop, specs, timeout, jobs=NCPU):
                 rc = p.poll()
                 if rc is None:
                     if time.monotonic() - t0 > timeout:
+                        import signal
+                        try:
+                            p.send_signal(signal.SIGUSR1)
+                            time.sleep(1.0)
+                        except Exception:
+                            pass
                         p.kill()
                         p.wait()
+                        log.flush()
+                        try:
+                            tail = open(lp, 'rb').read()[-3000:].decode('utf8', 'replace')
+                        except Exception:
+                            tail = ''
                         res.inconclusive_because(
                             f'shard {spec.get("name")} exceeded the '
-                            f'{timeout}s watchdog')
+                            f'{timeout}s watchdog; stacks: {tail}')
                         done.append(i)
                     continue
                 done.append(i)
